@@ -145,14 +145,14 @@ func ite(c, a, b Term) Term {
 	return mk(a.Sort, "ite", c, a, b)
 }
 
-func sel(arr, idx Term, elem Sort) Term        { return mk(elem, "select", arr, idx) }
-func store(arr, idx, val Term) Term            { return mk(arr.Sort, "store", arr, idx, val) }
-func add(a, b Term) Term                       { return mk(SInt, "+", a, b) }
-func sub(a, b Term) Term                       { return mk(SInt, "-", a, b) }
-func le(a, b Term) Term                        { return mk(SBool, "<=", a, b) }
-func lt(a, b Term) Term                        { return mk(SBool, "<", a, b) }
-func ge(a, b Term) Term                        { return mk(SBool, ">=", a, b) }
-func gt(a, b Term) Term                        { return mk(SBool, ">", a, b) }
+func sel(arr, idx Term, elem Sort) Term          { return mk(elem, "select", arr, idx) }
+func store(arr, idx, val Term) Term              { return mk(arr.Sort, "store", arr, idx, val) }
+func add(a, b Term) Term                         { return mk(SInt, "+", a, b) }
+func sub(a, b Term) Term                         { return mk(SInt, "-", a, b) }
+func le(a, b Term) Term                          { return mk(SBool, "<=", a, b) }
+func lt(a, b Term) Term                          { return mk(SBool, "<", a, b) }
+func ge(a, b Term) Term                          { return mk(SBool, ">=", a, b) }
+func gt(a, b Term) Term                          { return mk(SBool, ">", a, b) }
 func app(sort Sort, f string, args ...Term) Term { return mk(sort, f, args...) }
 
 // slice accessors
@@ -173,14 +173,14 @@ func ifVal(x Term) Term { return mk(SAny, "if.val", x) }
 var nilIface = Term{"nil.iface", SIface}
 
 // string functions
-func sLen(s Term) Term          { return mk(SInt, "slen", s) }
-func sByte(s, i Term) Term      { return mk(SInt, "sbyte", s, i) }
-func sSub(s, a, b Term) Term    { return mk(SStr, "ssub", s, a, b) }
-func sConcat(a, b Term) Term    { return mk(SStr, "sconcat", a, b) }
-func runeAt(s, i Term) Term     { return mk(SInt, "rune_at", s, i) }
-func widthAt(s, i Term) Term    { return mk(SInt, "width_at", s, i) }
-func runeEnc(r Term) Term       { return mk(SStr, "rune_enc", r) }
-func byteStr(b Term) Term       { return mk(SStr, "byte_str", b) }
+func sLen(s Term) Term       { return mk(SInt, "slen", s) }
+func sByte(s, i Term) Term   { return mk(SInt, "sbyte", s, i) }
+func sSub(s, a, b Term) Term { return mk(SStr, "ssub", s, a, b) }
+func sConcat(a, b Term) Term { return mk(SStr, "sconcat", a, b) }
+func runeAt(s, i Term) Term  { return mk(SInt, "rune_at", s, i) }
+func widthAt(s, i Term) Term { return mk(SInt, "width_at", s, i) }
+func runeEnc(r Term) Term    { return mk(SStr, "rune_enc", r) }
+func byteStr(b Term) Term    { return mk(SStr, "byte_str", b) }
 
 func sanitize(s string) string {
 	var b strings.Builder
